@@ -15,6 +15,10 @@ LEVEL_NOTE = (
     'coercion (C08).')
 DESIGN_REF = '§4 C17'
 
+# theorems of the integrated pipeline model (Props/X01.lean) that carry this property's theorems to formula TEXTS in a
+# compiled workbook; re-built and audited with this check (harness/common.prepare: soft obligations)
+TRANSPORT = ('XlVerif.Props.X01', ['X01_LEFT', 'compile_nested_formula_partial'])
+
 TRUSTED = [
     'Lean 4.33 kernel; axioms propext, Classical.choice, Quot.sound only',
     'hand-written model lean/XlVerif/Model/C17.lean of xlfunctions/text.py, tied to the code by this '
